@@ -222,6 +222,12 @@ func (o *OIDC) ValidatePayload(p openIDPayload) error {
 		return errs.Wrap(http.StatusUnauthorized, err, "validatePayload: failed to validate oidc token payload")
 	}
 
+	// The subject identifies the user, certificates and revocations are
+	// recorded under it.
+	if p.Subject == "" {
+		return errs.Unauthorized("validatePayload: failed to validate oidc token payload: subject (sub) cannot be empty")
+	}
+
 	// Validate azp if present
 	if p.AuthorizedParty != "" && p.AuthorizedParty != o.ClientID {
 		return errs.Unauthorized("validatePayload: failed to validate oidc token payload: invalid azp")
